@@ -70,6 +70,8 @@ pub enum L4 {
     Udp { sport: u16, dport: u16 },
     /// ICMPv4 / ICMPv6 with its type; for NS/NA the target address
     Icmp { ty: u8, target: Option<Ip> },
+    /// IPv4 fragment with non-zero offset / 6LoWPAN FRAGN: no transport header
+    Frag,
     Other(u8),
 }
 
@@ -78,6 +80,8 @@ pub enum Body {
     /// ARP: operation, sender hw, sender proto, target hw, target proto
     Arp { op: u16, sha: Vec<u8>, spa: Ip, tha: Vec<u8>, tpa: Ip },
     Ip { src: Ip, dst: Ip, hop: u8, l4: L4 },
+    /// 6LoWPAN subsequent fragment (RFC 4944 §5.3): datagram tag only, no IP header
+    LowpanFragN { tag: u16 },
     Other(String),
 }
 
@@ -88,6 +92,8 @@ pub struct Parsed {
     pub dst_hw: Vec<u8>,
     pub src_hw: Vec<u8>,
     pub body: Body,
+    /// 6LoWPAN first fragment: datagram tag
+    pub frag1_tag: Option<u16>,
 }
 
 fn be16(b: &[u8], o: usize) -> Option<u16> {
@@ -154,7 +160,7 @@ pub fn parse_ipv4(p: &[u8]) -> Body {
     s.copy_from_slice(&p[12..16]);
     d.copy_from_slice(&p[16..20]);
     let frag_off = be16(p, 6).unwrap() & 0x1fff;
-    let l4 = if frag_off != 0 { L4::Other(p[9]) } else { parse_l4_v4(p[9], &p[ihl..total]) };
+    let l4 = if frag_off != 0 { L4::Frag } else { parse_l4_v4(p[9], &p[ihl..total]) };
     Body::Ip { src: Ip::V4(s), dst: Ip::V4(d), hop: p[8], l4 }
 }
 
@@ -195,7 +201,7 @@ pub fn parse_ethernet(f: &[u8]) -> Result<Parsed, String> {
         0x86dd => parse_ipv6(p),
         x => Body::Other(format!("ethertype {:04x}", x)),
     };
-    Ok(Parsed { dst_hw, src_hw, body })
+    Ok(Parsed { dst_hw, src_hw, body, frag1_tag: None })
 }
 
 /// IID of an IPv6 address derived from an 802.15.4 link-layer address (RFC 4944 §6 / RFC 6282 §3.2.2)
@@ -262,8 +268,25 @@ pub fn parse_ieee802154(f: &[u8]) -> Result<Parsed, String> {
         _ => return Err("802.15.4 reserved src addressing mode".into()),
     }
     let p = &f[o..];
+    let d = *p.first().ok_or("802.15.4 frame without payload")?;
+    if d >> 3 == 0b11000 {
+        // FRAG1: datagram_size(11 bits) datagram_tag(16), then the compressed datagram start
+        if p.len() < 4 {
+            return Err("FRAG1 truncated".into());
+        }
+        let tag = u16::from_be_bytes([p[2], p[3]]);
+        let body = parse_iphc(&p[4..], &src_hw, &dst_hw)?;
+        return Ok(Parsed { dst_hw, src_hw, body, frag1_tag: Some(tag) });
+    }
+    if d >> 3 == 0b11100 {
+        if p.len() < 5 {
+            return Err("FRAGN truncated".into());
+        }
+        let tag = u16::from_be_bytes([p[2], p[3]]);
+        return Ok(Parsed { dst_hw, src_hw, body: Body::LowpanFragN { tag }, frag1_tag: None });
+    }
     let body = parse_iphc(p, &src_hw, &dst_hw)?;
-    Ok(Parsed { dst_hw, src_hw, body })
+    Ok(Parsed { dst_hw, src_hw, body, frag1_tag: None })
 }
 
 fn parse_iphc(p: &[u8], ll_src: &[u8], ll_dst: &[u8]) -> Result<Body, String> {
